@@ -341,6 +341,7 @@ fn sim_thread(t: usize, s: Arc<Sched>, keep_log: bool) {
             clock_calls: ctx.clock_calls,
             pid_calls: ctx.pid_calls,
             cwd_calls: ctx.cwd_calls,
+            cpu_calls: ctx.cpu_calls,
             getrandom_calls: ctx.getrandom_calls,
             foreign_writes: ctx.foreign_writes,
             write_set: ctx.write_set.clone(),
@@ -440,6 +441,8 @@ pub fn exec_jobs(sc: &C12Scenario, keep_log: bool) -> JobsResult {
             let mut ctx = Box::new(Ctx::new("", &stub, st.entropy[t], sc.threads[t].readdir_seed));
             ctx.plan = job.perturb.clone();
             ctx.clock_value = sc.clock;
+            ctx.clock_step_ns = sc.clock_step_ns;
+            ctx.cpus = sc.cpus;
             ctx.pid_value = sc.pid;
             st.ctxs[t] = Box::into_raw(ctx) as usize;
             st.pending[t] = Some((ri, job.clone(), sc.programs[job.program].clone()));
